@@ -37,7 +37,7 @@ func drawTrack(t *rapid.T, container string, video bool, label string) cli.Track
 	} else {
 		if video {
 			td.Codec = rapid.SampledFrom([]string{"h264", "h264", "h265", "av1", "vp9"}).Draw(t, label+"codec")
-			td.TimeScale = rapid.SampledFrom([]int{90000, 90000, 30000, 12800, 15360, 1000, 24000}).Draw(t, label+"ts")
+			td.TimeScale = rapid.SampledFrom([]int{90000, 90000, 30000, 12800, 15360, 1000, 24000, 10_000_000}).Draw(t, label+"ts")
 		} else {
 			td.Codec = rapid.SampledFrom([]string{"aac", "aac", "opus"}).Draw(t, label+"codec")
 			td.TimeScale = rapid.SampledFrom(fmp4Timescales).Draw(t, label+"ts")
@@ -88,7 +88,13 @@ func drawStream(t *rapid.T) cli.StreamDef {
 	if sd.Container == "mpegts" && rapid.IntRange(0, 3).Draw(t, "unsupported") == 0 {
 		// tracks of codecs the client has no type for: they must be ignored
 		x := rapid.SampledFrom([]string{"tsopus", "tsopus", "tsac3", "tsmp4v", "tsmp1v", "tsh265"}).Draw(t, "xcodec")
-		sd.Lead.Tracks = append(sd.Lead.Tracks, cli.TrackDef{Codec: x, TimeScale: 90000, SampleDur: 1800})
+		xt := cli.TrackDef{Codec: x, TimeScale: 90000, SampleDur: 1800}
+		if rapid.Bool().Draw(t, "xFirst") {
+			// listed first in the PMT
+			sd.Lead.Tracks = append([]cli.TrackDef{xt}, sd.Lead.Tracks...)
+		} else {
+			sd.Lead.Tracks = append(sd.Lead.Tracks, xt)
+		}
 	}
 	if rapid.Bool().Draw(t, "audioFirst") && len(sd.Lead.Tracks) > 1 && sd.Container == "fmp4" {
 		// video not first in the init
@@ -158,6 +164,13 @@ func drawStream(t *rapid.T) cli.StreamDef {
 	} else {
 		sd.BaseSec = rapid.OneOf(rapid.Just(int64(0)), rapid.Int64Range(0, 100), rapid.Int64Range(40000, 50000), rapid.Int64Range(1<<20, 1<<23)).Draw(t, "baseSec")
 		sd.BaseTicks = rapid.Int64Range(0, 100000).Draw(t, "baseTicks")
+		// the statement's base times go up to 2^40 ticks: keep a fine-grained (10 MHz) time scale
+		// inside that range, and sometimes right below its end
+		for _, tr := range sd.Lead.Tracks {
+			if tr.TimeScale >= 1_000_000 && sd.BaseSec > (1<<40)/int64(tr.TimeScale)-10 {
+				sd.BaseSec = rapid.SampledFrom([]int64{0, 100, 95000, 109000, (1<<40)/int64(tr.TimeScale) - 20}).Draw(t, "baseSecFine")
+			}
+		}
 	}
 	return sd
 }
